@@ -228,6 +228,12 @@ ProcessInvoiceAct(sl, ttlb) ==
      ELSE IF ~sel.ok THEN Upd(r1, hv, net, e)
      ELSE LET r == ProcessInvoice(st, "w1", args) IN
           UpdS(r.steps, hv, net \cup {Msg(sl, "I2", m.amt, ttl, m.rout, r.rep)}, e)
+\* the invoice arrives carrying a cut-off height that has long passed (the counter-party writes that
+\* field): paying it is refused without effect, whatever TTL the payer asks for on its own reply
+ProcessInvoiceExpiredAct(sl, ttlb) ==
+  /\ \E m \in net : m.sl = sl /\ m.stage = "I1"
+  /\ Nrep(st, sl) < 1
+  /\ Upd(st, hv, net, [ev |-> "process_invoice", w |-> "w1", sl |-> sl, ttlb |-> ttlb, tamper |-> "ttl_past", mok |-> FALSE])
 FinalizeInvoiceAct(sl, m) ==
   /\ m \in net /\ m.sl = sl /\ m.stage = "I2"
   /\ sl \in DOMAIN st.w["w2"].ctxs
@@ -383,6 +389,7 @@ Next ==
   \/ \E sl \in Slates : \E m \in net : FinalizeAct(sl, m) \/ LockAct(sl, m)
   \/ UseInvoice /\ \E sl \in Slates : (\E amt \in Amounts : IssueInvoiceAct(sl, amt)) \/ ProcessInvoiceAct(sl, 0)
                                         \/ (UseTtl /\ ProcessInvoiceAct(sl, 1))
+                                        \/ (UseTtl /\ \E tb \in {0, 1} : ProcessInvoiceExpiredAct(sl, tb))
                                         \/ \E m \in net : FinalizeInvoiceAct(sl, m)
   \/ MineAct("") \/ TickAct
   \/ UseMineTo /\ (MineAct("w1") \/ CandidateAct \/ MineReuseAct)
